@@ -38,6 +38,8 @@ pub struct Case {
     /// (made directly to the listener): it has no attribution of its own and nothing of it may be relayed
     #[serde(default)]
     pub then_direct_from_same_port: bool,
+    #[serde(default)]
+    pub host_down_prelude: bool,
 }
 
 pub fn dest_sel() -> impl Strategy<Value = DestSel> {
@@ -74,9 +76,9 @@ pub fn strategy() -> impl Strategy<Value = Case> {
         prop::option::weighted(0.85, rec()),
         gen::greq_with(provision_or(gen::gurl())),
         prop_oneof![3 => Just(vec![]), 2 => prop::collection::vec(gen::greq_with(provision_or(gen::gurl())), 1..4)],
-        (prop::option::weighted(0.25, (prop::option::weighted(0.8, gen::gdoc()), prop::option::weighted(0.8, gen::gdoc()), prop::option::weighted(0.6, gen::gdoc()))), prop::option::weighted(0.12, prop::sample::select(vec![-1i32, -22, i32::MIN])), prop::bool::weighted(0.12), prop::option::weighted(0.1, (any::<bool>(), gen::case_mask())), prop::option::weighted(0.15, 0u8..6), prop::bool::weighted(0.2)),
+        (prop::option::weighted(0.25, (prop::option::weighted(0.8, gen::gdoc()), prop::option::weighted(0.8, gen::gdoc()), prop::option::weighted(0.6, gen::gdoc()))), prop::option::weighted(0.12, prop::sample::select(vec![-1i32, -22, i32::MIN])), prop::bool::weighted(0.12), prop::option::weighted(0.1, (any::<bool>(), gen::case_mask())), prop::option::weighted(0.15, 0u8..6), prop::bool::weighted(0.2), prop::bool::weighted(0.06)),
     )
-        .prop_map(|(ws, imds, hostga, mut rec, mut req, more, (later_rules, admin_raw, morph, exempt_shape, abs_form, then_direct_from_same_port))| {
+        .prop_map(|(ws, imds, hostga, mut rec, mut req, more, (later_rules, admin_raw, morph, exempt_shape, abs_form, then_direct_from_same_port, host_down_prelude))| {
             // the two signature-exempt uploads take their own route through the proxy; they are mediated like everything else
             if let Some((telemetry, mask)) = exempt_shape {
                 if telemetry {
@@ -115,7 +117,7 @@ pub fn strategy() -> impl Strategy<Value = Case> {
                     }
                 }
             }
-            Case { ws, imds, hostga, rec, req, more, later_rules, admin_raw, morph, abs_form, then_direct_from_same_port }
+            Case { ws, imds, hostga, rec, req, more, later_rules, admin_raw, morph, abs_form, then_direct_from_same_port, host_down_prelude }
         })
 }
 
@@ -147,7 +149,7 @@ pub fn strategy_c03() -> impl Strategy<Value = Case> {
     })
 }
 
-pub const RULE: &str = "generator: after one attributed case in five the connection is reset and a connection WITHOUT a record is made from the same source port (421, nothing relayed); record uids include ids without a passwd entry that mean something elsewhere (0x3e4..0x3e8, 65533, 2^32-1, 1); rule set (or none) per endpoint installed through the public set_*_rules x attribution record (12% of the non-elevated records carry a negative elevation field, 'status unknown'; 15% of the request targets are written in absolute form, naming the recorded destination or another endpoint (the decision and the destination stay those of the connection); 10% of the requests are the two signature-exempt uploads (PUT /vmAgentLog, POST /machine/?comp=telemetrydata, any letter case); in 12% of the cases the caller is a process that has been seen by the agent before and has since replaced its image with exec - same pid, another executable and command line; 85%: uid from the generated passwd, pid of a live helper process, elevation flag = (uid == 0) or independent, original destination in {WireServer, HostGAPlugin, IMDS, the proxy itself, another local address, 168.63.129.16:81, an address nobody listens on}) or no record (direct connection) x request (method, URL incl. '..' / %2e%2e / '/provision', URL and caller mostly bound to the destination's rule set, header set, body as Content-Length or chunked). The raw client binds its source port, the record is placed in the stand-in audit map for that port, then it connects to the real listener. oracle: bytes counted at the mock hosts and the client status against the reference (record present AND no literal '..' in the path AND reference authorizer != Block). non-trivial: record present, destination's rule set present and not disabled, and the reference decision depends on the rule set (flipping the default access or the caller's elevation changes it) - or one of the refusal classes with a record present (traversal, self, non-elevated to a root-only endpoint, enforced denial). 40% of the cases carry 1-3 further requests on the same keep-alive connection and 25% of those replace the rule sets after the first request; every request is judged on its own against the rules in force when it is sent. distinct by hash of the case.";
+pub const RULE: &str = "generator: 6% of the cases start with an elevated caller's connection to the destination while that host is unreachable (its address is taken off the loopback device), followed by a record-less connection from the same source port once the host is back (421, nothing relayed); after one attributed case in five the connection is reset and a connection WITHOUT a record is made from the same source port (421, nothing relayed); record uids include ids without a passwd entry that mean something elsewhere (0x3e4..0x3e8, 65533, 2^32-1, 1); rule set (or none) per endpoint installed through the public set_*_rules x attribution record (12% of the non-elevated records carry a negative elevation field, 'status unknown'; 15% of the request targets are written in absolute form, naming the recorded destination or another endpoint (the decision and the destination stay those of the connection); 10% of the requests are the two signature-exempt uploads (PUT /vmAgentLog, POST /machine/?comp=telemetrydata, any letter case); in 12% of the cases the caller is a process that has been seen by the agent before and has since replaced its image with exec - same pid, another executable and command line; 85%: uid from the generated passwd, pid of a live helper process, elevation flag = (uid == 0) or independent, original destination in {WireServer, HostGAPlugin, IMDS, the proxy itself, another local address, 168.63.129.16:81, an address nobody listens on}) or no record (direct connection) x request (method, URL incl. '..' / %2e%2e / '/provision', URL and caller mostly bound to the destination's rule set, header set, body as Content-Length or chunked). The raw client binds its source port, the record is placed in the stand-in audit map for that port, then it connects to the real listener. oracle: bytes counted at the mock hosts and the client status against the reference (record present AND no literal '..' in the path AND reference authorizer != Block). non-trivial: record present, destination's rule set present and not disabled, and the reference decision depends on the rule set (flipping the default access or the caller's elevation changes it) - or one of the refusal classes with a record present (traversal, self, non-elevated to a root-only endpoint, enforced denial). 40% of the cases carry 1-3 further requests on the same keep-alive connection and 25% of those replace the rule sets after the first request; every request is judged on its own against the rules in force when it is sent. distinct by hash of the case.";
 
 pub fn dest_of(d: DestSel) -> Dest {
     let (ip, port) = d.addr();
@@ -199,7 +201,56 @@ pub fn exchange_paced(rig: &Rig, rec: Option<&Rec>, wire: &[u8], method: &str, p
     Ok(Observed { status, delta, requests, client_error, response })
 }
 
+/// a connection WITHOUT a record from source port `p` (which an attributed connection used just before): 421 and nothing relayed
+fn direct_from_port(rig: &Rig, p: u16, before_it: &str, stats: &mut Stats) -> Option<Outcome> {
+    std::thread::sleep(Duration::from_millis(2));
+    let mut c2 = rig.open(None, p).ok()?;
+    stats.class("connection:direct-from-the-port-of-an-earlier-attributed-connection");
+    let before = rig.mock.bytes_by_listener();
+    let _ = rig.mock.take_requests();
+    let wire = crate::rawhttp::request_head("GET", "/after-port-reuse", &[("Host".into(), b"169.254.169.254".to_vec())]);
+    let _ = c2.send(&wire);
+    let resp = c2.read("GET", Duration::from_secs(20));
+    let after = rig.mock.bytes_by_listener();
+    let up: u64 = after.iter().map(|(k, v)| v - before.get(k).copied().unwrap_or(0)).sum();
+    let status = resp.as_ref().ok().map(|r| r.status);
+    crate::rawhttp::close_abortive(c2.stream);
+    if up > 0 {
+        return Some(Outcome::fail("mediation:bytes-sent-upstream-for-refused:direct-connection-from-a-reused-port", format!("{} bytes reached a host for a request on a connection without a record (source port {} served {} just before); client saw {:?}", up, p, before_it, status)));
+    }
+    if status != Some(421) {
+        return Some(Outcome::fail("mediation:direct-connection-from-a-reused-port-not-refused-421", format!("client saw {:?} on source port {} (which served {} just before)", status, p, before_it)));
+    }
+    None
+}
+
 pub fn eval(rig: &Rig, case: &Case, stats: &mut Stats) -> Outcome {
+    // prelude: an ELEVATED caller's connection towards the case's destination while that host cannot be reached, then a
+    // record-less connection from the same source port once the host is back
+    if let (true, Some(r)) = (case.host_down_prelude, case.rec.as_ref()) {
+        let (ip, _) = r.dest.addr();
+        let addr = format!("{}.{}.{}.{}", ip[0], ip[1], ip[2], ip[3]);
+        if matches!(r.dest, DestSel::WireServer | DestSel::GaPlugin | DestSel::Imds) && crate::ns::set_host_address(&addr, false).is_ok() {
+            stats.class("prelude:elevated-caller-while-the-host-is-unreachable,then-direct-from-its-port");
+            let elevated = Rec { is_root: true, uid_sel: 0, ..*r };
+            let mut port = None;
+            if let Ok(mut c) = rig.open(Some(rig.entry_of(&elevated)), 0) {
+                port = Some(c.port);
+                let wire = crate::rawhttp::request_head("GET", "/while-the-host-is-down", &[("Host".into(), addr.clone().into_bytes())]);
+                let _ = c.send(&wire);
+                let _ = c.read("GET", Duration::from_secs(20));
+                crate::rawhttp::close_abortive(c.stream);
+            }
+            if let Err(e) = crate::ns::set_host_address(&addr, true) {
+                return Outcome::fail("rig:cannot-restore-host-address", e);
+            }
+            if let Some(p) = port {
+                if let Some(o) = direct_from_port(rig, p, &format!("an elevated caller's connection to {:?} while that host was unreachable", r.dest), stats) {
+                    return o;
+                }
+            }
+        }
+    }
     rig.set_rules(case.ws.as_ref(), case.imds.as_ref(), case.hostga.as_ref());
     rig.set_key(None);
     let mut rules: (Option<GDoc>, Option<GDoc>, Option<GDoc>) = (case.ws.clone(), case.imds.clone(), case.hostga.clone());
@@ -261,25 +312,8 @@ pub fn eval(rig: &Rig, case: &Case, stats: &mut Stats) -> Outcome {
         crate::rawhttp::close_abortive(c.stream);
     }
     if let (true, Some(p), true) = (case.then_direct_from_same_port, last_port, case.rec.is_some()) {
-        // the same source port again, this time without a record: a direct connection
-        std::thread::sleep(Duration::from_millis(2));
-        if let Ok(mut c2) = rig.open(None, p) {
-            stats.class("connection:direct-from-the-port-of-an-earlier-attributed-connection");
-            let before = rig.mock.bytes_by_listener();
-            let _ = rig.mock.take_requests();
-            let wire = crate::rawhttp::request_head("GET", "/after-port-reuse", &[("Host".into(), b"169.254.169.254".to_vec())]);
-            let _ = c2.send(&wire);
-            let resp = c2.read("GET", Duration::from_secs(20));
-            let after = rig.mock.bytes_by_listener();
-            let up: u64 = after.iter().map(|(k, v)| v - before.get(k).copied().unwrap_or(0)).sum();
-            let status = resp.as_ref().ok().map(|r| r.status);
-            crate::rawhttp::close_abortive(c2.stream);
-            if up > 0 {
-                return Outcome::fail("mediation:bytes-sent-upstream-for-refused:direct-connection-from-a-reused-port", format!("{} bytes reached a host for a request on a connection without a record (source port {} served an attributed connection {:?} just before); client saw {:?}", up, p, case.rec, status));
-            }
-            if status != Some(421) {
-                return Outcome::fail("mediation:direct-connection-from-a-reused-port-not-refused-421", format!("client saw {:?} on source port {}", status, p));
-            }
+        if let Some(o) = direct_from_port(rig, p, &format!("an attributed connection {:?}", case.rec), stats) {
+            return o;
         }
     }
     Outcome::Pass
